@@ -2,7 +2,7 @@
 # usage: seedround.sh <suffix> <prop>...   worktrees /tmp/wt5_<prop>; records seeded/<prop>-<suffix>
 suf=$1; shift
 for p in "$@"; do
-  wt=/tmp/wt5_$p
+  wt=/tmp/${WTP:-wt5}_$p
   git -C $wt diff -- btc_hd_wallet > $wt/patch.diff
   cp $wt/NOTES.txt $wt/meta.txt 2>/dev/null
   echo "== $p"; /verif/harness/seedtest.sh $wt $p $p-$suf 2>&1 | tail -8
